@@ -40,8 +40,9 @@ P = {
        "and pseudogene slots form a prefix, a double deletion is alone, folded structure well-formed, feasible <-> canonical form within error "
        "bounds, objective identity, reported scores are the objective of a folded feasible form inside the gap, first is optimal over all "
        "enumerated forms, no repeats, least among yielded explanations, ordered yields, completeness up to supersets, user-supplied structure "
-       "verbatim / unknown configuration rejected / default copies. Relative to the enumerated canonical forms (candidates): that enumeration is "
-       "compared with CBC's own on every generated case. " + TIE + "Structural LP tie (recorded CBC model vs gen) and behavioural tie "
+       "verbatim / unknown configuration rejected / default copies. The enumeration of canonical forms (candidates) is proved COMPLETE "
+       "(C03_cn_candidates_complete: the active set of every feasible point is, up to order, an enumerated form), so optimality, completeness "
+       "and non-emptiness hold over ALL feasible points of the ILP (C03_cn_optimal_abs, C03_cn_complete_abs, C03_cn_nonempty_abs). " + TIE + "Structural LP tie (recorded CBC model vs gen) and behavioural tie "
        "(estimate_cn / solve_cn_model results and scores vs CnSpec) on generated region-depth vectors over toy, generated and shipped genes.",
   note=TRUST + "CBC oracle (C05 contract). hyps_ok / names_ok are decidable hypotheses evaluated on every case. 'Score of the BEST explanation' is proved as 'least among yielded explanations' (named partial in props/C03.v).",
   tech="Coq proof over executable Gallina model (ILP generator + enumeration spec) + structural LP comparison + differential correspondence (vm_compute)"),
